@@ -39,6 +39,7 @@ const (
 	PView                 // array view [N]T over backing array Ref starting at Idx
 	PGlobal               // package-level variable
 	PLocalPath            // part of a non-escaping local struct/array kept as a value: Alloc + field path (+ Idx)
+	PElemIn               // element Idx2 of the array-valued element Idx of backing array Ref
 )
 
 type PtrV struct {
@@ -51,6 +52,8 @@ type PtrV struct {
 	Idx     *Term
 	Elem    types.Type // pointee type
 	Path    []int      // PLocalPath: field indices from the alloc's value down to the pointee (before Idx)
+	Idx2    *Term      // PElemIn: index inside the array-valued element
+	Outer   types.Type // PElemIn: the array type of the element
 }
 
 var (
@@ -64,6 +67,16 @@ func under(t types.Type) types.Type { return t.Underlying() }
 func isStructT(t types.Type) bool { _, ok := under(t).(*types.Struct); return ok }
 func isArrayT(t types.Type) bool  { _, ok := under(t).(*types.Array); return ok }
 func isObjT(t types.Type) bool    { return isStructT(t) || isArrayT(t) }
+
+// isElemObj: elements of this type are stored as sub-objects of their backing array.  Arrays of
+// scalars are instead stored by value (one SMT array per element), which keeps append/copy and
+// comparisons of e.g. []keys.DHPublicKey simple.
+func isElemObj(t types.Type) bool {
+	if isStructT(t) {
+		return true
+	}
+	return isArrayT(t) && singleSort(t) == nil
+}
 
 func intWidth(t types.Type) (w int, signed bool, ok bool) {
 	b, isB := under(t).(*types.Basic)
@@ -220,10 +233,40 @@ func (fx *FnExec) family(st *State, key string, sort *Sort) *Term {
 		return t
 	}
 	// unknown heap contents of this epoch: a named constant shared by every state of the epoch
-	t := fx.c.Const(fmt.Sprintf("H%d|%s", st.epoch, key), sort)
+	name := fmt.Sprintf("H%d|%s", st.epoch, key)
+	t := fx.c.Const(name, sort)
 	st.heap[key] = t
 	fx.famSort[key] = sort
+	fx.oldRefsAxiom(name, t, st.epoch)
 	return t
+}
+
+// oldRefsAxiom: every reference held in unknown heap contents of an epoch denotes an object
+// allocated before the epoch began (so it differs from every later allocation of this frame).
+func (fx *FnExec) oldRefsAxiom(name string, t *Term, epoch int) {
+	if fx.famAxiom == nil {
+		fx.famAxiom = map[string]bool{}
+	}
+	if fx.famAxiom[name] || strings.HasPrefix(name[strings.IndexByte(name, '|')+1:], "GF|") {
+		return
+	}
+	fx.famAxiom[name] = true
+	c := fx.c
+	serial := c.BVInt(int64(fx.epochSerial[epoch]), 32)
+	s := t.Sort
+	if !s.IsArr() || s.Idx != RefSort {
+		return
+	}
+	x := c.BoundVarNamed("x@old."+name, RefSort)
+	switch {
+	case s.Elem == RefSort:
+		v := c.Select(t, x)
+		fx.assumeGlobal(c.Forall([]*Term{x}, c.BVCmp("bvule", c.App("born", BV(32), c.App("rootOf", RefSort, v)), serial), []*Term{v}))
+	case s.Elem.IsArr() && s.Elem.Elem == RefSort:
+		i := c.BoundVarNamed("i@old."+name, s.Elem.Idx)
+		v := c.Select(c.Select(t, x), i)
+		fx.assumeGlobal(c.Forall([]*Term{x, i}, c.BVCmp("bvule", c.App("born", BV(32), c.App("rootOf", RefSort, v)), serial), []*Term{v}))
+	}
 }
 
 func (fx *FnExec) setFamily(st *State, key string, t *Term) {
@@ -261,6 +304,7 @@ func (fx *FnExec) subNonNil(t *Term) {
 	// functions forming them are injective
 	fx.assumeGlobal(c.App("interior", BoolSort, t))
 	fx.assumeGlobal(c.Eq(c.App("owner", RefSort, t), t.Args[0]))
+	fx.assumeGlobal(c.Eq(c.App("rootOf", RefSort, t), c.App("rootOf", RefSort, t.Args[0])))
 	fx.assumeGlobal(c.Eq(c.App("kindOf", BV(32), t), c.BVInt(int64(fx.eng.typeTagByName(t.Name)), 32)))
 	if len(t.Args) == 2 {
 		fx.assumeGlobal(c.Eq(c.App("indexOf", BV(64), t), t.Args[1]))
@@ -283,6 +327,7 @@ func (fx *FnExec) newRef(what string) *Term {
 	fx.assumeGlobal(c.Not(c.App("interior", BoolSort, r)))
 	// allocation serial: distinct from every other allocation and from everything that existed at entry
 	fx.assumeGlobal(c.Eq(c.App("born", BV(32), r), c.BVInt(int64(len(fx.freshRefs)), 32)))
+	fx.assumeGlobal(c.Eq(c.App("rootOf", RefSort, r), r))
 	return r
 }
 
@@ -337,7 +382,32 @@ func (fx *FnExec) zeroVal(t types.Type) Val {
 
 // freshVal returns an unconstrained value of type t (with Go's representation
 // invariants assumed).
+// notYounger: a reference appearing now denotes an object allocated no later than now.
+func (fx *FnExec) notYounger(r *Term) {
+	c := fx.c
+	fx.assumeGlobal(c.BVCmp("bvule", c.App("born", BV(32), c.App("rootOf", RefSort, r)), c.BVInt(int64(len(fx.freshRefs)), 32)))
+}
+
 func (fx *FnExec) freshVal(t types.Type, name string) Val {
+	v := fx.freshVal0(t, name)
+	switch x := v.(type) {
+	case PtrV:
+		if x.Ref != nil {
+			fx.notYounger(x.Ref)
+		}
+	case SliceV:
+		fx.notYounger(x.Ref)
+	case IfaceV:
+		fx.notYounger(x.Ref)
+	case *Term:
+		if x.Sort == RefSort {
+			fx.notYounger(x)
+		}
+	}
+	return v
+}
+
+func (fx *FnExec) freshVal0(t types.Type, name string) Val {
 	c := fx.c
 	if isStringT(t) {
 		s := StrV{c.Fresh(name+".arr", byteArr), c.Fresh(name+".off", BV(64)), c.Fresh(name+".len", BV(64))}
@@ -561,7 +631,7 @@ func (fx *FnExec) storeObj(st *State, t types.Type, ref *Term, v Val) {
 
 // loadElem reads element idx (absolute index) of backing array ref.
 func (fx *FnExec) loadElem(st *State, et types.Type, ref, idx *Term) Val {
-	if isObjT(et) {
+	if isElemObj(et) {
 		return fx.loadObj(st, et, fx.elemRef(et, ref, idx))
 	}
 	var ls []*Term
@@ -576,7 +646,7 @@ func (fx *FnExec) loadElem(st *State, et types.Type, ref, idx *Term) Val {
 }
 
 func (fx *FnExec) storeElem(st *State, et types.Type, ref, idx *Term, v Val) {
-	if isObjT(et) {
+	if isElemObj(et) {
 		fx.storeObj(st, et, fx.elemRef(et, ref, idx), v)
 		return
 	}
@@ -614,7 +684,7 @@ func (fx *FnExec) storeBox(st *State, t types.Type, ref *Term, v Val) {
 // single-leaf element type.
 func (fx *FnExec) elemArray(st *State, et types.Type, ref *Term) *Term {
 	es := singleSort(et)
-	if es == nil || isObjT(et) {
+	if es == nil || isElemObj(et) {
 		fx.oos("elemArray of %s", et)
 	}
 	fam := fx.family(st, elemFamKey(et, ""), ArrSort(RefSort, ArrSort(BV(64), es)))
@@ -677,6 +747,8 @@ func (fx *FnExec) load(st *State, p PtrV) Val {
 		return fx.loadField(st, p.StructT, p.Field, p.Ref)
 	case PElem:
 		return fx.loadElem(st, p.Elem, p.Ref, p.Idx)
+	case PElemIn:
+		return fx.c.Select(fx.loadElem(st, p.Outer, p.Ref, p.Idx).(*Term), p.Idx2)
 	case PBox:
 		return fx.loadBox(st, p.Elem, p.Ref)
 	case PGlobal:
@@ -721,6 +793,9 @@ func (fx *FnExec) store(st *State, p PtrV, v Val) {
 		fx.storeField(st, p.StructT, p.Field, p.Ref, v)
 	case PElem:
 		fx.storeElem(st, p.Elem, p.Ref, p.Idx, v)
+	case PElemIn:
+		arr := fx.loadElem(st, p.Outer, p.Ref, p.Idx).(*Term)
+		fx.storeElem(st, p.Outer, p.Ref, p.Idx, fx.c.Store(arr, p.Idx2, v.(*Term)))
 	case PBox:
 		fx.storeBox(st, p.Elem, p.Ref, v)
 	case PGlobal:
@@ -858,6 +933,8 @@ func (fx *FnExec) mergeVal(cond *Term, a, b Val) Val {
 			return PtrV{Kind: PField, Ref: fx.mergeTerm(cond, x.Ref, y.Ref), StructT: x.StructT, Field: x.Field, Elem: x.Elem}
 		case PElem, PView:
 			return PtrV{Kind: x.Kind, Ref: fx.mergeTerm(cond, x.Ref, y.Ref), Idx: fx.mergeTerm(cond, x.Idx, y.Idx), Elem: x.Elem}
+		case PElemIn:
+			return PtrV{Kind: x.Kind, Ref: fx.mergeTerm(cond, x.Ref, y.Ref), Idx: fx.mergeTerm(cond, x.Idx, y.Idx), Idx2: fx.mergeTerm(cond, x.Idx2, y.Idx2), Elem: x.Elem, Outer: x.Outer}
 		}
 	case nil:
 		return b
@@ -1009,8 +1086,21 @@ func (fx *FnExec) mergeStates(ins []incoming) *State {
 				if !sameVal(v, rv) {
 					res.ghost[g] = fx.mergeVal(cond, v, rv)
 				}
+			} else if strings.HasSuffix(g, "|called") {
+				res.ghost[g] = fx.mergeVal(cond, v, c.False())
+			} else if strings.HasSuffix(g, "|count") {
+				res.ghost[g] = fx.mergeVal(cond, v, fx.bv64(0))
 			} else {
 				res.ghost[g] = v
+			}
+		}
+		for g, rv := range res.ghost {
+			if _, ok := in.st.ghost[g]; !ok {
+				if strings.HasSuffix(g, "|called") {
+					res.ghost[g] = fx.mergeVal(cond, c.False(), rv)
+				} else if strings.HasSuffix(g, "|count") {
+					res.ghost[g] = fx.mergeVal(cond, fx.bv64(0), rv)
+				}
 			}
 		}
 		for h, v := range in.st.held {
